@@ -122,6 +122,20 @@ class F:
 
 
 @dataclass(frozen=True)
+class M:
+    """serialized method / property of an object"""
+
+    name: str
+    ret: T
+    body: str  # python source of the returned expression (may use self)
+    fn: Any  # model side: dict of field values -> model value
+    alias: Optional[str] = None
+    undefined: bool = False  # return type contains UndefinedType
+    prop: bool = False
+    order: Optional[str] = None
+
+
+@dataclass(frozen=True)
 class Obj(T):
     kind: str  # dataclass namedtuple typeddict
     name: str
@@ -139,6 +153,7 @@ class Obj(T):
     typed_required: Tuple[str, ...] = ()  # for typeddict: names required (when mixing through inheritance)
     generic_params: Tuple[str, ...] = ()
     post_assign: Tuple[Tuple[str, str], ...] = ()  # __post_init__ semantics: target field = source field
+    methods: Tuple[M, ...] = ()
 
     def key(self):
         return repr(self)
